@@ -191,9 +191,11 @@ def ukf {n m p : Nat} (pinv : Mat α p p → Mat α p p) (msqrt : Mat α n n →
   let P := memoM (msub Pm.mfn (mmul (mmul K.mfn Py.mfn) (transpose K.mfn)))
   ⟨x.fn, P.mfn⟩
 
-def runUKF {n m p : Nat} (pinv : Mat α p p → Mat α p p) (msqrt : Mat α n n → Mat α n n) (kk : α)
-    (steps : List (Step α n m p)) (pr : Post α n) : Post α n :=
-  steps.foldl (fun st s => ukf pinv msqrt kk s st) pr
+/-- a run on one filter object: every call carries its own sigma-point parameter `k` (the API takes `k` per
+call; `None` is `3 − n`) besides its own system, `u`, `y`, `Q`, `R` -/
+def runUKF {n m p : Nat} (pinv : Mat α p p → Mat α p p) (msqrt : Mat α n n → Mat α n n)
+    (calls : List (α × Step α n m p)) (pr : Post α n) : Post α n :=
+  calls.foldl (fun st c => ukf pinv msqrt c.1 c.2 st) pr
 
 /-! ## PF  (`PF.forward`, `relative_likelihood`, `resample_particles`, `compute_cov`)
 
